@@ -224,6 +224,67 @@ def scenario(ctx, npairs=3, nbars=2, max_mc=4, clause="lookahead", merged=False)
         ctx.cover("the handler pool was saturated")
 
 
+def repeated_runs(ctx, norders=3):
+    """Determinism across repeated runs, exchange level.  What differs between two runs of one backtest is the outcome
+    of uuid.uuid4() (the order ids): run A and run B get different id streams (B's is a solver choice).  The open-order
+    container's traversal counter is symbolic, so 'however long the backtest ran before' is covered (periodic
+    re-indexing included).  Orders compete for one bar's limited liquidity, so the processing order shows in the fills."""
+    import hashlib
+    import uuid
+
+    stream_b = 1 + ctx.choice("id_stream_of_second_run", 3)
+    counter0 = ctx.int("reindex_counter", 0, 10 ** 6)
+    ntrav = 1 + ctx.choice("traversals_before_the_bar", 2)
+    pair = PAIRS[0]
+
+    def one_run(stream):
+        n = [0]
+
+        def uuid4():
+            n[0] += 1
+            return uuid.UUID(bytes=hashlib.sha256(b"%d:%d" % (stream, n[0])).digest()[:16])
+        ctx.patch(uuid, "uuid4", uuid4, both_modes=True)
+        d = bs.backtesting_dispatcher()
+        e = bex.Exchange(d, {"USD": Decimal(100000), "AAA": Decimal(100)},
+                         liquidity_strategy_factory=liquidity.VolumeShareImpact, default_pair_info=PairInfo(0, 2))
+        now = [T0]
+
+        def feed(o, h, l, c, v):
+            now[0] = now[0] + datetime.timedelta(days=1)
+            d._last_dt = now[0]
+            b = bar.Bar(now[0] - datetime.timedelta(days=1), pair, Decimal(o), Decimal(h), Decimal(l), Decimal(c),
+                        Decimal(v))
+            xrun(e._on_bar_event(bar.BarEvent(now[0], b)))
+        d._last_dt = T0
+        feed(100, 101, 99, 100, 1000)
+        oids = []
+        for i in range(norders):
+            oids.append(xrun(e.create_limit_order(BUY, pair, Decimal(10 + i), Decimal(50))).id)
+        e._order_mgr._orders._reindex_counter = counter0
+        for k in range(ntrav):
+            if k % 2 == 0:
+                feed(100, 101, 99, 100, 1000)            # no order crosses
+            else:
+                xrun(e.get_open_orders())
+        feed(100, 101, 40, 45, 48)                        # crosses every limit; 25 % of 48 = 12 units of liquidity
+        out = []
+        for i, oid in enumerate(oids):
+            info = xrun(e.get_order_info(oid))
+            out.append((i, info.is_open, info.amount_filled, info.quote_amount_filled))
+        bal = {s: (v.available, v.hold, v.borrowed) for s, v in xrun(e.get_balances()).items()}
+        return out, bal
+    a = one_run(0)
+    b = one_run(stream_b)
+    if any(f[2] > 0 for f in a[0]):
+        ctx.cover("an order was filled")
+    ctx.prove(a[0] == b[0], "C03 repeated runs give identical fills (runs differ in the random order ids only)",
+              info=(a[0], b[0]))
+    ctx.prove(a[1] == b[1], "C03 repeated runs give identical final balances (runs differ in the random order ids only)",
+              info=(a[1], b[1]))
+    ctx.cover("run completed")
+    ctx.cover("the handler pool was saturated")
+
+
 def jobs(tier):
     big = dict(split=200, max_paths=2000000, validate_every=300, sample_every=600)
     js = []
@@ -235,7 +296,11 @@ def jobs(tier):
     for npairs in (2, 3):
         js.append(Job("look-ahead %d pairs x 2 bars, one merged bar source" % npairs, "scenario",
                       dict(npairs=npairs, nbars=2, max_mc=3, clause="lookahead", merged=True), **big))
+    js.append(Job("repeated runs, 3 competing orders, any traversal count", "repeated_runs", dict(norders=3),
+                  validate_every=5, sample_every=10))
     if tier == "thorough":
+        js.append(Job("repeated runs, 4 competing orders, any traversal count", "repeated_runs", dict(norders=4),
+                      validate_every=5, sample_every=10))
         js.append(Job("look-ahead 3 pairs x 3 bars", "scenario", dict(npairs=3, nbars=3, max_mc=5, clause="lookahead"),
                       **dict(big, split=600)))
         js.append(Job("determinism 3 pairs x 3 bars", "scenario",
